@@ -6,7 +6,7 @@ PROPS = {
         proof_targets=["Props/C13.vo"],
         theorems=[("C13", "C13_dedup_map_consistent"), ("C13", "C13_add_type_sound"), ("C13", "C13_add_type_idempotent"),
                   ("C13", "C13_add_type_preserves"), ("C13", "C13_sequences"), ("C13", "C13_emission"),
-                  ("C13", "C13_existing_type_not_added_again"), ("C13", "C13_last_visited_wins"),
+                  ("C13", "C13_existing_type_not_added_again"), ("C13", "C13_ascending_order"), ("C13", "C13_last_visited_wins"),
                   ("C13", "C13_model_meets_spec"), ("C13", "C13_checker_sound")],
         quick=dict(n=3000), thorough=dict(n=60000), per_shard=400,
         rule="type section of 0-6 rec groups (implicit single types; explicit groups of 0-3 members), func / struct / array types over 18 "
@@ -15,12 +15,12 @@ PROPS = {
              "add_array_type, add_array_type_with_params, add_struct_type, add_struct_type_with_params and FunctionBuilder::finish_module, "
              "30% repeating an earlier request (also through the sibling call), 20% asking for a type the base already has, with and without "
              "tag; non-trivial = at least one addition; distinct by hash of the case term",
-        level_text="Proof (Coq, all type sections, all addition sequences, no size bound, ANY iteration order of the HashMap that "
-                   "ModuleTypes::new iterates): add_type is sound (type at the returned id = request), idempotent, and only appends (ids and "
+        level_text="Proof (Coq, all type sections, all addition sequences, no size bound, ANY order in which ModuleTypes::new inserts the parsed "
+                   "types into the dedup map -- the code uses the ascending id order): add_type is sound (type at the returned id = request), idempotent, and only appends (ids and "
                    "contents of existing types and rec groups never change); lifted to sequences by fold_left (same request anywhere in the "
                    "sequence -> same id); emission writes the input's rec groups unchanged followed by each added type as its own entry at index = id; "
                    "a type the input already has is never added again. The model is tied to /repo's working tree by differential evaluation inside "
-                   "Coq (model =? observed, using the iteration order read from module.types.types right after parse; independent specification "
+                   "Coq (model under the ascending insertion order =? observed, on bases with structurally equal types in 45% of the cases; independent specification "
                    "=? observed on the decoded type section).",
         level_note="Trusted: Coq kernel + vm_compute; the harness (generator, wasmparser decoding of SubTypes into structural terms, token table "
                    "for value/storage types, reading the HashMap iteration order through the public field); that the sampled correspondence extends "
@@ -35,7 +35,7 @@ PROPS = {
                       "its emission (tied to /repo by the correspondence run)"],
         modelled="Types (Eq/Hash without tag), ModuleTypes::new / add_type / add_*_type(_with_params), FunctionBuilder::finish_module's type addition, rec-group parse and emission",
         assumptions=["super type ids < 2^20 (PackedIndex::from_module_index silently drops larger ones; DESIGN.md section 2, last row): part of the domain predicate",
-                     "which of several structurally equal types of the input answers a request depends on the process's hash seed (D11, property C04); C13 holds for every order",
+                     "of several structurally equal types of the input the one with the highest id answers a request (ascending insertion, last writer wins; D11 of C04 repaired); C13 holds for every order",
                      "value types exn/cont and shared reference types are not generated (D10, property C02); continuation types are not generated (encode_type is todo!())",
                      "struct requests carry as many mutability flags as fields (fewer flags panic in encode_type: API misuse, not generated)"],
     ),
